@@ -17,8 +17,10 @@
 (*             faces would not stay planar); validity of the perturbed     *)
 (*             cells is decided by TLC in J_FvOracle on the real topology  *)
 (*     shear   image under an integer shear (faces stay planar)            *)
-(* permeability: a catalogue of integer SPD tensors (diagonal and full);   *)
-(*   constant, or (C12) chosen per cell.                                   *)
+(* permeability: a catalogue of integer SPD tensors (diagonal incl.        *)
+(*   transversely isotropic ones in all three axis positions, and full);   *)
+(*   constant, or (C12) chosen per cell (any / diagonal / transversely     *)
+(*   isotropic with the equal pair equal in every cell).                   *)
 (* boundary types: a 0/1 mask over the boundary faces in ascending face    *)
 (*   order (1 = Dirichlet): ALL masks with at least one Dirichlet face on  *)
 (*   grids with at most ExhNB boundary faces, otherwise all-Dirichlet plus *)
@@ -43,7 +45,8 @@ CONSTANTS Prop,    \* "C11" | "C12" | "C18"
           NVar,    \* number of seeded variants per (size, modification)
           NK,      \* number of constant tensors per grid
           NMask,   \* number of seeded masks per grid on grids with more than ExhNB boundary faces
-          ExhNB    \* all masks are enumerated up to this number of boundary faces
+          ExhNB,   \* all masks are enumerated up to this number of boundary faces
+          NTI      \* dim 3: number (1..3) of axis positions of the transversely isotropic tensors used per grid
 
 VARIABLES st, gd, cfg
 vars == <<st, gd, cfg>>
@@ -93,24 +96,33 @@ Shear(d) == IF d.mod # "shear" THEN <<>>
             ELSE IF Dim(d) = 2 THEN Shears2[Pick(HId(d), 50, 4) + 1] ELSE Shears3[Pick(HId(d), 50, 4) + 1]
 
 \* ---- permeabilities <<kxx, kyy, kzz, kxy, kxz, kyz>>; the first NDiag(dim) entries are diagonal -------------
+\* dim 3: entries 4..6 are transversely isotropic with the equal pair in each of the three axis positions
+\* (diag(a,a,b), diag(a,b,a), diag(b,a,a)); dim 2: entry 4 has kxx = kyy (and a kzz that must not matter)
 KCat(dim) ==
   IF dim = 1 THEN << <<1, 1, 1, 0, 0, 0>>, <<2, 1, 1, 0, 0, 0>>, <<5, 1, 1, 0, 0, 0>> >>
-  ELSE IF dim = 2 THEN << <<1, 1, 1, 0, 0, 0>>, <<2, 1, 1, 0, 0, 0>>, <<1, 3, 1, 0, 0, 0>>,
+  ELSE IF dim = 2 THEN << <<1, 1, 1, 0, 0, 0>>, <<2, 1, 1, 0, 0, 0>>, <<1, 3, 1, 0, 0, 0>>, <<2, 2, 3, 0, 0, 0>>,
                           <<2, 3, 1, 1, 0, 0>>, <<3, 2, 1, -1, 0, 0>>, <<4, 1, 1, 1, 0, 0>> >>
   ELSE << <<1, 1, 1, 0, 0, 0>>, <<2, 1, 3, 0, 0, 0>>, <<1, 4, 2, 0, 0, 0>>,
+          <<2, 2, 5, 0, 0, 0>>, <<3, 1, 3, 0, 0, 0>>, <<1, 4, 4, 0, 0, 0>>,
           <<3, 2, 2, 1, 0, 1>>, <<2, 3, 4, 1, 1, 1>>, <<3, 3, 2, -1, 1, 0>> >>
-NDiag(dim) == 3
-\* a tensor choice: <<"const", i>> | <<"hetdiag", 0>> | <<"het", 0>>
+NDiag(dim) == IF dim = 1 THEN 3 ELSE IF dim = 2 THEN 4 ELSE 6
+\* positions of the equal pair: 1 = (x, y), 2 = (x, z), 3 = (y, z); catalogue entry 3 + pos
+TIPositions(d) == IF Dim(d) # 3 THEN {} ELSE {1 + ((Pick(HId(d), 760, 3) + j) % 3) : j \in 0..(NTI - 1)}
+TITensor(pos, a, b) == IF pos = 1 THEN <<a, a, b, 0, 0, 0>> ELSE IF pos = 2 THEN <<a, b, a, 0, 0, 0>> ELSE <<b, a, a, 0, 0, 0>>
+\* a tensor choice: <<"const", i>> | <<"hetdiag", 0>> | <<"het", 0>> | <<"hetti", pos>> (per cell transversely
+\* isotropic, the equal pair in the same position pos and equal in every cell, values varying from cell to cell)
 KChoices(d) ==
   LET L == Len(KCat(Dim(d)))
-      consts == {<<"const", Pick(HId(d), 700 + j, L) + 1>> : j \in 1..NK}
+      consts == {<<"const", Pick(HId(d), 700 + j, L) + 1>> : j \in 1..NK} \cup {<<"const", 3 + pos>> : pos \in TIPositions(d)}
   IN IF Prop # "C12" THEN consts
      ELSE consts \cup {<<"const", Pick(HId(d), 750, NDiag(Dim(d))) + 1>>, <<"hetdiag", 0>>, <<"het", 0>>}
+                 \cup {<<"hetti", 1 + Pick(HId(d), 761, 3)>> : x \in (IF Dim(d) = 3 THEN {1} ELSE {})}
 KCells(d, ch) ==
   LET cat == KCat(Dim(d)) IN
   [c \in 1..NumCells(d) |->
      IF ch[1] = "const" THEN cat[ch[2]]
      ELSE IF ch[1] = "hetdiag" THEN cat[Pick(HId(d), 1000 + c, NDiag(Dim(d))) + 1]
+     ELSE IF ch[1] = "hetti" THEN TITensor(ch[2], 1 + Pick(HId(d), 5000 + c, 3), 1 + Pick(HId(d), 6000 + c, 5))
      ELSE cat[Pick(HId(d), 2000 + c, Len(cat)) + 1]]
 
 \* ---- linear fields (the first one is constant) -----------------------------------------------------------
@@ -181,6 +193,7 @@ Emit == st = 1 => PrintT(ToJson(cfg))
 LawCatalogue == \A dim \in 1..3 : \A i \in 1..Len(KCat(dim)) :
                    /\ KSPD(KCat(dim)[i]) /\ KBlock(dim, KCat(dim)[i])
                    /\ i <= NDiag(dim) => KDiag(KCat(dim)[i])
+                   /\ (dim = 3 /\ i \in 4..6) => \E a, b \in 1..9 : a # b /\ KCat(3)[i] = TITensor(i - 3, a, b)
 LawMotions == \A i \in 1..Len(Motions) : Proper(Motions[i])
 \* n . K g is invariant: (M nu) . (M K M^T) (M g) = n^4 (nu . K g) for the catalogue tensors and some vectors
 LawInvariance == \A i \in 1..Len(Motions) : \A dim \in 1..2 : \A j \in 1..Len(KCat(dim)) :
